@@ -1,6 +1,6 @@
 import Hive.Proofs.SerixJson
 import Hive.Proofs.SerixJsonOrder
-import Hive.Spec.SerixJsonOrder
+import Hive.Proofs.SerixJsonDeep
 /-!
 # C01 (JSON/map form) — MapEncode/JSONEncode then MapDecode/JSONDecode round-trips every value the form can express
 
@@ -64,26 +64,29 @@ theorem C01_json_map_any_iteration_order (b : Bounds) (k e : JTy) (es es' : List
 
 /-! ### member order of the decoded document -/
 
-/-- **Full statement** of "decoding does not depend on the order of object members", at every depth
-of the document and for every target type. -/
-def C01_json_key_order_statement : Prop :=
-  ∀ (fc : FloatCodec) (o : Opts) (t : JTy) (j j' : Json) (v : Val), JPerm j j' → NoDupKeys j →
-    mapDecode fc o t j = .ok v → ∃ v', mapDecode fc o t j' = .ok v' ∧ VEquiv v v'
+/-- **Decoding does not depend on the order of object members**, at every depth of the document
+and for every target type: if `j'` is `j` with the members of its objects permuted (`JPerm`,
+Hive/Spec/SerixJsonOrder.lean) and `j` is a `map[string]any` tree (no duplicate member names), then
+whatever `j` decodes to, `j'` decodes to the same Go value (`VEquiv`: Go maps compared as sets of
+entries) — and, `JPerm` being symmetric on such documents, an error on one is an error on the other.
+This is what makes Go's random map iteration order harmless on both sides: `JSONEncode` may emit the
+members of a Go map in any order, `json.Unmarshal` hands the decoder unordered `map[string]any`s. -/
+theorem C01_json_key_order_irrelevant (t : JTy) (j j' : Json) (v : Val) (hp : JPerm j j')
+    (hn : NoDupKeys j) (h : mapDecode fc o t j = .ok v) :
+    ∃ v', mapDecode fc o t j' = .ok v' ∧ VEquiv v v' :=
+  deep_ty fc o t j j' v hp hn h
 
-/-- **Order of the members of an object, struct-like targets** (proved part 1 of
-`C01_json_key_order_statement`; missing: the induction through *nested* documents).  A struct
-with embedded / inlined fields, a typed byte array, an interface, a pointer to one of them read the
-object only by key: every permutation of the members of an object without duplicate names is
-decoded to the same result — value or error. -/
-theorem C01_json_key_order_irrelevant_partial (t : JTy) (ht : t.byKey = true)
+/-- one object, struct-like targets, exact equality (value or error): a struct with embedded /
+inlined fields, a typed byte array, an interface, a pointer to one of them read the object only by
+key, so every permutation of the members of an object without duplicate names decodes identically. -/
+theorem C01_json_key_order_by_lookup (t : JTy) (ht : t.byKey = true)
     (ms ns : List (String × Json)) (hp : ms.Perm ns) (hnd : (keys ms).Nodup) :
     mapDecode fc o t (.obj ms) = mapDecode fc o t (.obj ns) :=
   dec_congr_ty fc o t ht ms ns (jlookup_perm hp hnd)
 
-/-- **Order of the members of an object, Go-map targets** (proved part 2): walking the members in
-another order succeeds exactly when it did before and yields the same entries, in the permuted
-order — the same Go map. -/
-theorem C01_json_map_member_order_irrelevant_partial (b : Bounds) (k e : JTy)
+/-- one object, Go-map targets: walking the members in another order succeeds exactly when it did
+before and yields the same entries, in the permuted order — the same Go map. -/
+theorem C01_json_map_member_order (b : Bounds) (k e : JTy)
     (ms ns : List (String × Json)) (hp : ms.Perm ns) (es : List (Val × Val))
     (h : mapDecode fc o (.map b k e) (.obj ms) = .ok (.map es)) :
     ∃ es', mapDecode fc o (.map b k e) (.obj ns) = .ok (.map es') ∧ es.Perm es' := by
@@ -204,6 +207,18 @@ def exVal : Val := .struct [.num 64, .num 32, .num (-64), .num (-8), .num 0, .fl
   .str "abcd", .bool true]
 
 example : ValExpressible exFc exBasic exVal := by decide
+
+/-- the hypotheses of `C01_json_key_order_irrelevant` are satisfiable: a document with a nested
+object, both levels permuted. -/
+example : JPerm (.obj [("a", .num 1), ("b", .obj [("x", .str "p"), ("y", .arr [.bool true])])])
+      (.obj [("b", .obj [("y", .arr [.bool true]), ("x", .str "p")]), ("a", .num 1)]) ∧
+    NoDupKeys (.obj [("a", .num 1), ("b", .obj [("x", .str "p"), ("y", .arr [.bool true])])]) := by
+  constructor
+  · refine .obj (ms' := [("a", .num 1), ("b", .obj [("y", .arr [.bool true]), ("x", .str "p")])])
+      (.cons (.refl _) (.cons ?_ .nil)) (List.Perm.swap _ _ _)
+    exact .obj (JPermM_refl _) (List.Perm.swap _ _ _)
+  · refine .obj (by decide) (.cons (.num 1) (.cons ?_ .nil))
+    exact .obj (by decide) (.cons (.str "p") (.cons (.arr (.cons (.bool true) .nil)) .nil))
 
 /-- the hypotheses of `C01_json_roundtrip` are satisfiable by a non-trivial value, and the encoder
 accepts it. -/
